@@ -339,17 +339,32 @@ def _is_lit(n):
     return n["t"] in ("int", "str", "none", "true") or (n["t"] in ("tuple", "list") and all(_is_lit(c) for c in n["a"]))
 
 
+def _reads(n, name):
+    return any(x["t"] == "name" and x["s"] == name for x in walk(n))
+
+
 def static_features(prog):
     """program-level facts read off the spec-published tree (used for compile-time rejections, which have no call)"""
-    f = {"literal_unpack_length_mismatch": False, "literal_tuple_const_index_out_of_range": False}
+    f = {"literal_unpack_length_mismatch": False, "literal_tuple_const_index_out_of_range": False,
+         "literal_unpack_trailing_star_gets_nothing": False, "class_body_comprehension_with_closure_over_its_variable": False}
     for n in walk(prog):
         if n["t"] == "assign" and n["a"][0]["t"] == "tup" and n["a"][1]["t"] in ("tuple", "list"):
             tg, nv = n["a"][0]["a"], len(n["a"][1]["a"])
             star = any(c["t"] == "star" for c in tg)
             if (star and nv < len(tg) - 1) or (not star and nv != len(tg)):
                 f["literal_unpack_length_mismatch"] = True
+            if tg[-1]["t"] == "star" and nv == len(tg) - 1:
+                f["literal_unpack_trailing_star_gets_nothing"] = True
         if n["t"] == "sub" and n["a"][0]["t"] == "tuple" and n["a"][1]["t"] == "int" and _is_lit(n["a"][0]):
             k, ln = n["a"][1]["i"], len(n["a"][0]["a"])
             if k >= ln or k < -ln:
                 f["literal_tuple_const_index_out_of_range"] = True
+        if n["t"] == "class":
+            # statements of the class body proper (not the methods)
+            for st in n["a"][0]["a"]:
+                if st["t"] == "def":
+                    continue
+                for c in walk(st):
+                    if c["t"] == "comp" and any(x["t"] == "lambda" and _reads(x["a"][0], c["p"][0]) for x in walk(c["a"][0])):
+                        f["class_body_comprehension_with_closure_over_its_variable"] = True
     return f
